@@ -31,7 +31,8 @@ var Shapes = []Shape{
 	{"zerowidth", []string{`a*`, `\b`, `(?=a)`, `\G`, `\Ga*`, `(?<=a)`, `^|$`, `a*?`, `(?:)`, `$`, `a?`, `(?m)^`, `(?m)$`, `\B`, `b*|a`, `(a)?`, `\Ga`, `(?<=\Ga)`, `a|`, `(?!a)`, `\b|a`}},
 	{"anchors", []string{`^a`, `a$`, `(?m)^a`, `(?m)a$`, `\Aa`, `a\Z`, `a\z`, `\ba`, `a\b`, `\Ba`, `a\B`, `\Ga`, `^$`, `(?m)^$`, `a$\n`, `a\Z\n`, `(?s)a.$`}},
 	{"classes", []string{`[ab]`, `[^ab]`, `\w`, `\W`, `\d`, `\D`, `\s`, `\S`, `[a-c\d]`, `[^\w]`, `\p{Lu}`, `\P{Lu}`, `[\p{Ll}x]`, `.`, `(?s).`, `[\n]`, `[^\n]`, `\p{Greek}`}},
-	{"case", []string{`(?i)a`, `(?i)[a-c]`, `(?i)[^a]`, `(?i)abc`, `(?i)(a)\1`, `(?i)k`, `(?i)é`, `(?i)σ`, `(?i)[α-γ]`, `(?i)ж`, `(?i)a*B`, `(?i)ab|cd`, `(?i)\x41`, `(?i)[A-Z]b`}},
+	{"case", []string{`(?i)a`, `(?i)[a-c]`, `(?i)[^a]`, `(?i)abc`, `(?i)(a)\1`, `(?i)k`, `(?i)é`, `(?i)σ`, `(?i)[α-γ]`, `(?i)ж`, `(?i)a*B`, `(?i)ab|cd`, `(?i)\x41`, `(?i)[A-Z]b`,
+		`(?i)[\s\S-[a]]`, `(?i)[\w\W-[k]]`, `(?i)[^x-[a]]`, `(?i)[a-z-[b]]`, `(?i)[\d\D-[A-C]]`, `(?i)[\w-[a-c]]x`, `(?i)[^a-[b]]`, `(?i)[\x00-\x{10FFFF}-[é]]`, `(?i)[a-c-[b-[B]]]`}},
 	{"groups", []string{`(a)(?<x>b)(c)`, `(?<x>a)|(?<x>b)`, `(?<x>a)(b)`, `(a)(?<y>b)(?<x>c)`, `(?n)(a)(?<x>b)`, `(?<x>a)\k<x>`, `((a)(b))`, `(a(b(c)))`}},
 	{"options", []string{`(?n:(?i)a)(b)`, `(?-n:(?i)(a))(b)`, `(?x:(?i) a )(b)`, `(?n:(?m)^a)(b)(c)`, `(?i:(?n)(a)b)(c)`, `((?n)(a)(?-n)(b))(c)`, `(?n:a(?-n:(b))c)(a)`, `(?s:(?i)a.)(b)`, `(?x: a (?-x: b)c )(d)`, `(?n)(a)(?-n)(b)`, `(?i)a(?-i)b`, `a(?i)b`, `(?i:a)b`, `(?s).(?-s).`, `(?m)^a(?-m)$`, `(?i)(?:a(?-i)b)c`, `(?x) a b # c`, `(?x)a\ b`, `(?n)(a)(b)`, `(?i:a|B)c`, `a(?i:b)c`}},
 }
